@@ -64,6 +64,23 @@ def run(ctx):
     r4_kwargs(ctx, pp)
     r5_fallback(ctx)
     r6_safe_actions_cache(ctx)
+    r7_probe_marked(ctx)
+
+
+def r7_probe_marked(ctx):
+    ctx.rule("C15.R7", "batch_order's square-case probe calls the learner with single-row arguments that still carry the is_batch marker "
+                       "(otherwise a row-major learner answers the probe un-batched and is classified column-major)")
+    fn = ctx.fn(SAF, "SafeLearner.batch_order")
+    probes = [c for c in walk_shallow(fn) if isinstance(c, ast.Call) and isinstance(c.func, ast.Name) and c.func.id == "predictor"]
+    ctx.floor("C15.R7", "probe calls in batch_order", len(probes), 1)
+    marked = {c.name for c in ast.walk(fn) if isinstance(c, ast.ClassDef) and any(isinstance(st, ast.Assign) and unparse(st) == "is_batch = True" for st in c.body)}
+    for c in probes:
+        ok = len(c.args) == 2 and all(isinstance(a, ast.Call) and isinstance(a.func, ast.Name) and a.func.id in marked for a in c.args) and \
+            [unparse(a.args[0]) for a in c.args if isinstance(a, ast.Call) and a.args] == ["[context[0]]", "[actions[0]]"]
+        ctx.ob("C15.R7", SAF, "SafeLearner.batch_order", c, "the probe passes [context[0]] and [actions[0]] wrapped in a class with is_batch = True", ok,
+               detail={"marked_classes": sorted(marked), "args": [unparse(a) for a in c.args]})
+        g = [unparse(t) for t, p in guards_of(enclosing_stmt(c), fn) if p]
+        ctx.ob("C15.R7", SAF, "SafeLearner.batch_order", c, "the probe is used only in the ambiguous square case", g == ["n_dim1 == n_dim2"] or len(g) == 1, stmt="probe guard", detail={"guards": g})
 
 
 def r6_safe_actions_cache(ctx, rule="C15.R6"):
@@ -283,6 +300,7 @@ def _body_of(st):
 
 
 CONTROLS = [
+    ("probe loses batch marker", SAF, M.replace_expr("SafeLearner.batch_order", "predictor(Batch([context[0]]), Batch([actions[0]]))", "predictor(context[:1], actions[:1])"), "C15.R7"),
     ("cache key set on one branch only", SAF, M.replace_stmt("SafeLearner.predict", M.simple_has("self._prev_actions = actions"), "if 0 in actions: self._prev_actions = actions"), "C15.R6"),
     ("drop AX in col arm", SAF, lambda tree: _drop_arm(tree, "col", "AX"), "C15.R1"),
     ("pred_format returns AQ", SAF, M.replace_expr("SafeLearner.pred_format", "'AX*'", "'AQ*'"), "C15.R2"),
